@@ -25,7 +25,8 @@ THEOREMS = ['evaluate_fst', 'passed_iff_no_errors', 'sizeBad_iff', 'listBad_iff'
 TECHNIQUE = 'Lean 4 theorems (refinement of the evaluator to a declarative spec, invariant over the error bookkeeping) + exhaustive small-universe correspondence with Policy.evaluate'
 LEVEL_TEXT = ('The evaluator is transcribed branch by branch into Lean; evaluate ↔ Satisfied (a declarative conjunction from the README), passed ↔ empty error list, '
               'and both monotonicity claims are proved for arbitrary policies and peers. The transcription is compared with the real Policy.evaluate (verdict and complete '
-              'error list) on the property\'s own small universe, exhaustively in the thorough tier, plus random large instances.')
+              'error list) on the property\'s own small universe, exhaustively in the thorough tier, plus random large instances.'
+              ' The clauses about the printed error list (one block per error record, sorted, each with its field name and the expected / actual values exactly as the record carries them; text and JSON forms agree) are theorems of the shared policy-audit extension (Props/C02PolicyAudit) and are decided here.')
 LEVEL_NOTE = ('Trusted: Lean kernel; correspondence harness; the policy/peer objects are built directly (manual_load) — file parsing is covered by C05. '
               'Errors accumulate across evaluate() calls on one Policy object (D29): safe in the tool because every target gets a deep copy; modelled (evaluate2 op) and compared. '
               'The text rendering of the error block is compared literally for a sample, not proved.')
